@@ -474,6 +474,35 @@ def points_stage(ctx, binary, stats, hist, only=None):
             agree = h_.startswith("ok") and d_.startswith("ok") and ht[1] == d_.split()[1] and (ht[1] == "1" or ht[-1] == "same")
             if not agree:
                 hist["augmentWithNoise:guard-differs-from-model(not alarmed)"] = hist.get("augmentWithNoise:guard-differs-from-model(not alarmed)", 0) + 1
+    # aliasing (fix af9098e): the noise covariance handed to augmentWithNoise refers to the mixture's own storage
+    if not ctx.replay:
+        al = []
+        for _ in range(ctx.n(10, 80)):
+            lin, k = g.r.randint(1, 4), g.r.randint(1, 4)
+            comp = g.r.randrange(k)
+            means = [g.vec(lin) for _ in range(k)]
+            Ps = [g.spd(lin) for _ in range(k)]
+            toks = ["augal", str(lin), str(k), str(comp)] + [hexd(v) for m_ in means for v in m_]
+            toks += [hexd(P[a][b]) for P in Ps for b in range(lin) for a in range(lin)]
+            al.append((" ".join(toks), lin, k, comp, means, Ps))
+        register("points-alias", [(x[0], {"aliased-augmentation": list(x[1:4])}) for x in al])
+        ah, _ = vlib.run_harness(binary, [x[0] for x in al])
+        for (aline, lin, k, comp, means, Ps), h_ in zip(al, ah):
+            hist["augmentWithNoise:argument-aliases-own-storage"] = hist.get("augmentWithNoise:argument-aliases-own-storage", 0) + 1
+            n2 = 2 * lin
+            want_m = [fmat([m_])[0] + [F0] * lin for m_ in means]
+            want_c = [blockdiag(P, Ps[comp]) for P in Ps]
+            ok_ = h_.startswith("ok") and not nonfinite_count(h_)
+            if ok_:
+                t_ = h_.split()
+                ok_ = [int(x) for x in t_[1:5]] == [1, n2, n2, lin]
+                if ok_:
+                    gm = vlib.mat_from_cm(t_[5:5 + n2 * k], n2, k, frac_of_hex)
+                    gc = vlib.mat_from_cm(t_[5 + n2 * k:5 + n2 * k + n2 * n2 * k], n2, n2 * k, frac_of_hex)
+                    ok_ = [[gm[r_][i] for r_ in range(n2)] for i in range(k)] == want_m and \
+                          [[[gc[a][n2 * i + b] for b in range(n2)] for a in range(n2)] for i in range(k)] == want_c
+            if not ok_:
+                prop_bad.append(("augment-wrong", "augmentWithNoise(g.covariance(%d)) (argument refers to the mixture's own storage): result is not [m;0], blockdiag(P_i, P_%d): %s" % (comp, comp, h_[:60]), aline, h_))
     return len(cases), lines, prop_bad, corr_bad, len(logs)
 
 
@@ -1540,6 +1569,7 @@ def run(ctx):
         "augmentWithNoise:second augmentation": hist.get("points:noise-blocks=2", 0),
         "dof_size:quaternion": hist.get("weights:dof:quat", 0), "dof_size:else": hist.get("weights:dof:euler", 0),
         "directional_mean:cols==1": 0,
+        "special size: one degree of freedom (3 sigma points)": sum(1 for (l, m_) in cases if m_["nx"] + m_["nz"] == 1) + sum(1 for l in clines if int(l.split()[1]) + int(l.split()[2]) * (3 if l.split()[3] == "1" else 1) + int(l.split()[4]) == 1) + sum(1 for l in plines if int(l.split()[1]) == 1 and int(l.split()[5]) == 0),
     })
     all_lines = wlines + plines + tlines + clines
     nontrivial = set()
